@@ -181,6 +181,15 @@ def run_property(prop: str, tier: str, repo_root: str, rules: Callable[[Ctx], No
     if replay:
         return _do_replay(ctx, replay)
 
+    selftest_mode = bool(os.environ.get("CUBEVERIF_SELFTEST"))
+    if selftest_mode:
+        # variant run of the self-test: report on stdout only, never touch evidence / replay files
+        for o in violations:
+            print(f"FINDING rule={o.rule} construct={o.construct}")
+            print(f"VIOLATION property={prop} replay=-")
+        for o in undecided:
+            print(f"UNDECIDED property={prop} {o.rule} {o.construct}")
+        return 1 if violations else 0
     replay_dir = os.path.join(VERIF_ROOT, "evidence", "replay")
     os.makedirs(replay_dir, exist_ok=True)
     # clean stale replay files of this property
@@ -238,6 +247,30 @@ def run_property(prop: str, tier: str, repo_root: str, rules: Callable[[Ctx], No
         "wall_s": round(time.time() - t0, 3),
         "violations": len(violations),
     }
+    if tier == "thorough":
+        # checker validation (never decides the property): variant corpus on scratch copies of the tree
+        try:
+            from .selftest import run_for_property
+
+            st = run_for_property(repo_root, prop)
+            evidence["coverage"]["selftest"] = {
+                "what": "each corpus variant is ONE edit applied to a scratch copy of the source tree; breaking variants must make this check fire, neutral (behaviour preserving) variants must leave it silent; it validates the checker and never decides the property",
+                "breaking_fired": st["breaking_fired"],
+                "breaking_total": st["breaking_total"],
+                "breaking_missed": st["breaking_missed"],
+                "neutral_silent": st["neutral_silent"],
+                "neutral_total": st["neutral_total"],
+                "neutral_alarmed": st["neutral_alarmed"],
+                "skipped": st["skipped"],
+                "per_variant": [{k: r.get(k) for k in ("id", "kind", "status", "rules", "suite_notices")} for r in st["results"]],
+            }
+            print(
+                f"{prop} selftest: breaking fired {st['breaking_fired']}/{st['breaking_total']} (missed {st['breaking_missed']}), "
+                f"neutral silent {st['neutral_silent']}/{st['neutral_total']} (alarmed {st['neutral_alarmed']}), skipped {len(st['skipped'])}"
+            )
+        except Exception as e:  # the self-test must never turn a verdict into an error
+            evidence["coverage"]["selftest"] = {"error": f"{type(e).__name__}: {e}"}
+    evidence["wall_s"] = round(time.time() - t0, 3)
     with open(evidence_path, "w") as fh:
         json.dump(evidence, fh, indent=1)
     print(
